@@ -398,6 +398,33 @@ def facts_before(f, var, line, node=None):
     return facts
 
 
+def _endian_assert_exhaustive(m, f, a):
+    """An assertion about the endianness character inside the endian if-chain of a struct-token parser: evaluate the chain for
+    every character of the regex's endian class; if no character runs into a failing assertion, it cannot fail."""
+    from . import tables as T
+    try:
+        chain = T._endian_chain(f)
+    except AnalysisError:
+        return False
+    if chain is None:
+        return False
+    classes = set()
+    for name in T.STRUCT_REGEXES:
+        try:
+            pat = T._regex_literal(m, name)
+            for cls_ in T.regex_classes(pat):
+                if cls_ & set('<>@='):
+                    classes |= set(cls_)
+        except Exception:
+            return False
+    if not classes or not classes <= set('<>@=!'):
+        return False
+    try:
+        return all(chain(ch) != 'AssertionError' for ch in classes)
+    except AnalysisError:
+        return False
+
+
 def _fresh_copy_unflagged(m, f, test):
     """`assert X.immutable is False` where X is (a local holding, or an attribute just assigned) the result of store._copy(), and
     BitStore._copy is still 'return BitStore(<bitarray>)' with the constructor's flag defaulting to False."""
@@ -526,6 +553,10 @@ def rule_N1(ctx):
             # a generator body runs when it is consumed, not when the (mode-switched) method was called
             r.fail(f.key, f'assert {txt}', 'this assertion about a module option sits in a generator: the option can be changed between the call '
                    'that created the generator and its consumption, and the user then sees AssertionError', loc=f.loc(a))
+            continue
+        if _endian_assert_exhaustive(m, f, a):
+            r.ok(f'{f.key}: {txt}', sample={'instance': f.key, 'assert': txt, 'verdict': 'cannot fail: the if-chain in front of it and the assertion together cover '
+                                                 'exactly the endianness characters the regular expression admits (evaluated for each of them, rule H1)'})
             continue
         if _fresh_copy_unflagged(m, f, a.test):
             r.ok(f'{f.key}: {txt}', sample={'instance': f.key, 'assert': txt, 'verdict': "holds by construction: the value is the result of the store's "
